@@ -532,7 +532,7 @@ CHECKS["C05"] = dict(
           "after it has seen the client's EOF; the mirror image; one side finishing only after the other's EOF. Oracle: each side receives "
           "exactly the peer's bytes (length and content, position-checked) and sees EOF only after all of them; data sent after the peer's "
           "half-close still arrives; nothing from another connection's pattern appears. part pingpong: request/response traffic against an echo backend: 1..12 messages of 1, 2, 3, 5, 100, 16383..16385, 32769 or 70000 bytes, each echoed completely (10 s) before the next is sent. Non-trivial: both directions exceed one 16 KiB "
-          "buffer, or data is sent after the peer's half-close. Distinct by canonical JSON."),
+          "buffer, or data is sent after the peer's half-close. Paced cases (idle time-out 1.2 s, one side streams 30 KiB over about 3 s): the side that says little either half-closes at once or stays open and silent until it has seen the streaming side's EOF, so that its own direction runs into the idle time-out while the other direction is busy - the stream must still arrive completely. Distinct by canonical JSON."),
     assumptions=["the idle time-out (10 min) is larger than every generated gap: the idle cut-off itself is not exercised",
                  "abortive closes (RST with unread data) are not generated: TCP itself then drops data"],
     parts=[
@@ -559,12 +559,13 @@ CHECKS["C06"] = dict(
           "slowremove (the member's address is black-holed, connections arrive and some are picked for it, the host is removed, the backend accepts again: a connection that ends up relayed to the removed host must be closed), "
           "config (OnSvcConfigUpdate at run time: another policy, other health-check thresholds, or no health check at all - then every member counts as healthy); after every removal the established connections to the "
           "OTHER hosts must still be open; the health state is awaited by polling the health flag of the host objects handed to the processor. Non-trivial: >1 goroutine and >1 host (roundrobin); >= 2 hosts (pick); a removal or health flip while a connection "
-          "is established (e2e). Distinct by canonical JSON."),
+          "is established (e2e). Part concurrentpick: RANDOM and LEAST_CONNECTION with their real random source (the pick part replaces it), 1..16 hosts, 1..16 goroutines that start together and pick 1..100000 times each: every pick is a member of the list, no pick panics. Distinct by canonical JSON."),
     assumptions=["the usable set is judged only after the health-check detection window has passed since the last flip",
                  "hosts are never added twice for one address (the config store filters that)"],
     parts=[
         dict(name="roundrobin", test="TestRoundRobin", kind="rapid", checks={"quick": 3000, "thorough": 100000}, shards=4, timeout={"quick": 600, "thorough": 3000}),
         dict(name="pick", test="TestPick", kind="rapid", checks={"quick": 20000, "thorough": 1000000}, shards=4, timeout={"quick": 600, "thorough": 3000}),
+        dict(name="concurrentpick", test="TestConcurrentPick", kind="rapid", checks={"quick": 1200, "thorough": 10000}, shards=8, timeout={"quick": 600, "thorough": 3000}, gomaxprocs=8),
         dict(name="e2e", test="TestE2E", kind="rapid", checks={"quick": 100, "thorough": 1500}, shards=16, timeout={"quick": 900, "thorough": 3400}, shrinktime="60s", gomaxprocs=4, crash_is_violation=True),
     ],
 )
